@@ -131,7 +131,8 @@ def run(tier):
     impl = C.run_harness("delta-total", payloads, ck.work + "/debug", timeout=3000)
     implr = C.run_harness("delta-total", payloads, ck.work + "/release", timeout=3000, binary=C.PVH_RELEASE)
     # the lexer model decides which inputs contain an invalid lexeme
-    small = [(c[0], c[1]) for c in cases if len(c[1]) <= 4096 and c[2] != "tokens"][: (3000 if tier == "quick" else 60000)]
+    prio = ("literal-spellings", "boundary-integers", "cast-operands", "unicode-strings")      # the deterministic families first
+    small = [(c[0], c[1]) for c in sorted(cases, key=lambda c: 0 if c[2] in prio else 1) if len(c[1]) <= 4096 and c[2] != "tokens"][: (3500 if tier == "quick" else 60000)]
     model = C.run_model([("lex-delta", cid, b.hex() if b else "()") for cid, b in small], ck.work + "/lexmodel", timeout=3000)
     # node accounting: Model/DeltaNodes.v on the token kinds the real lexer produced
     nitems = []
